@@ -63,6 +63,7 @@ mutual
   def VE.refs : VE → List Nat
     | .atom _ => []
     | .fresh => []
+    | .freshTuple _ => []
     | .mkRef _ => []
     | .ref id => [id]
     | .node _ _ _ _ items => refsItems items
